@@ -47,11 +47,14 @@ type vfMuxCfg struct {
 	k        int
 	timeouts []time.Duration
 	frames   []int // explicit frame sequence: caller index, or -1 for an op id nobody issued
+	wstall   int   // index of the pipe write that never returns (-1: none)
+	fstall   int   // index of the pipe flush that never returns (-1: none)
+	werr     int   // index of the pipe write that fails (-1: none)
 }
 
 func vfParseMuxCfg(s string) vfMuxCfg {
 	// "n=2,k=3,t=1/5"
-	c := vfMuxCfg{n: 2, k: 3}
+	c := vfMuxCfg{n: 2, k: 3, wstall: -1, fstall: -1, werr: -1}
 	for _, kv := range strings.Split(s, ",") {
 		p := strings.SplitN(kv, "=", 2)
 		if len(p) != 2 {
@@ -62,6 +65,12 @@ func vfParseMuxCfg(s string) vfMuxCfg {
 			c.n, _ = strconv.Atoi(p[1])
 		case "k":
 			c.k, _ = strconv.Atoi(p[1])
+		case "ws":
+			c.wstall, _ = strconv.Atoi(p[1])
+		case "fs":
+			c.fstall, _ = strconv.Atoi(p[1])
+		case "we":
+			c.werr, _ = strconv.Atoi(p[1])
 		case "f":
 			for _, t := range strings.Split(p[1], ".") {
 				if t == "u" {
@@ -121,6 +130,31 @@ func vfMuxMake(scn string) (func(), func(*vsched.Exec) (string, *vsched.Violatio
 			p.inbound = append(p.inbound, vfFrame(map[string]string{"_opid": op, "_cid": "x"}, []byte(mark))...)
 			st.framesK++
 			return true
+		}
+		nw, nf := 0, 0
+		if cfg.wstall >= 0 || cfg.werr >= 0 {
+			p.onWrite = func(p *vfPipe, b []byte) error {
+				nw++
+				if nw-1 == cfg.werr {
+					return thrift.NewTTransportException(thrift.UNKNOWN_TRANSPORT_EXCEPTION, "injected write failure")
+				}
+				if nw-1 == cfg.wstall {
+					// the peer stops reading: this write never returns while the stream is open
+					vsched.WaitUntil(p.out, func() bool { return !p.open })
+					return errVfClosed
+				}
+				return nil
+			}
+		}
+		if cfg.fstall >= 0 {
+			p.onFlush = func(p *vfPipe) error {
+				nf++
+				if nf-1 == cfg.fstall {
+					vsched.WaitUntil(p.out, func() bool { return !p.open })
+					return errVfClosed
+				}
+				return nil
+			}
 		}
 		if err := tr.Open(); err != nil {
 			panic(err)
@@ -209,6 +243,9 @@ func vfMuxMake(scn string) (func(), func(*vsched.Exec) (string, *vsched.Violatio
 		}
 		bl := e.Blocked()
 		for _, b := range bl {
+			if b.FG {
+				continue // a caller that never returns is C13's finding, reported below
+			}
 			if b.Kind == vsched.KSend || b.Kind == vsched.KLock || b.Kind == vsched.KRLock {
 				viol("C06/wedged/"+b.Kind.String()+"@"+b.Where,
 					fmt.Sprintf("thread %q is parked forever in %s at %s with the system quiescent: the inbound path is stalled", b.Thread, b.Kind, b.Where))
@@ -241,6 +278,9 @@ func vfMuxMake(scn string) (func(), func(*vsched.Exec) (string, *vsched.Violatio
 					viol("C13/early-timeout", fmt.Sprintf("caller%d reported TIMED_OUT at %dns, before its timeout %s", i, c.retClock, c.timeout))
 				}
 			default:
+				if cfg.werr >= 0 && strings.HasPrefix(c.outcome, "terr") {
+					break // the injected write failure is reported to exactly the caller whose write failed
+				}
 				viol("C01/unexpected-outcome/"+c.outcome, fmt.Sprintf("caller%d: outcome %q is neither its own response nor a timeout", i, c.outcome))
 			}
 		}
@@ -300,6 +340,13 @@ func init() {
 			}
 			for _, f := range seqs(2, 3) {
 				out = append(out, "n=2,t=1/5,f="+f)
+			}
+			// peers that stop reading (a write or flush that never returns) or whose write fails, with
+			// and without responses for the other caller
+			for _, fault := range []string{"ws=0", "ws=1", "fs=0", "fs=1", "we=0", "we=1"} {
+				for _, f := range []string{"", "1", "2", "1.2", "2.1"} {
+					out = append(out, "n=2,t=1/5,"+fault+",f="+f)
+				}
 			}
 			if tier == "thorough" {
 				for _, f := range seqs(2, 4) {
